@@ -198,3 +198,159 @@ REFUTED_ON_THE_UNCHANGED_TREE.append(Contract(
               f'implies(g_q in new_quals, {NQ}.tosubclass is not None and {NQ}.overridable is not None)')],
     raises=UNFINISHED[0].raises,
     notes='not run by the engine (see UNFINISHED); both clauses are violated natively, reproducers above'))
+
+# ---- the same table, ROW BY ROW (each contract fixes, in `requires`, whether g_q is declared / inherited; small enough to
+# discharge).  _init_qualifier is cut at the contract proved in contracts/C12.py, written with the public attribute names (the
+# property getters return the private fields) and weakened to what does not mention the declaration object.
+#   g_nq  = the qualifier object the new element declares under g_q (on entry)      g_inh = the inherited qualifier g_q
+init_c = Contract(
+    K + '_init_qualifier',
+    modifies=['qualifier.propagated'] + [f'qualifier.{f}' for f in FLAVORS],
+    ensures=[('locally-declared-is-not-propagated', 'qualifier.propagated is False'),
+             ('tosubclass-default', 'qualifier.tosubclass is not None and '
+              'implies(old(qualifier.tosubclass) is not None, qualifier.tosubclass == old(qualifier.tosubclass))'),
+             ('overridable-default', 'qualifier.overridable is not None and '
+              'implies(old(qualifier.overridable) is not None, qualifier.overridable == old(qualifier.overridable))'),
+             ('translatable-default',
+              'implies(old(qualifier.translatable) is not None, qualifier.translatable == old(qualifier.translatable))')],
+    raises={'KeyError': Raises()},
+    notes='consequences of the clauses proved for _init_qualifier in contracts/C12.py (same names), public attribute names')
+ENUM_ROW = [
+    'forall(lambda j: g_items[j][1] is inherited_quals[g_items[j][0]] and g_items[j][1].name == g_items[j][0] '
+    'and g_items[j][0] in inherited_quals, 0, len(g_items))',
+    'forall(lambda j: implies(j != g_p, g_items[j][0] != g_q), 0, len(g_items))',
+]
+POSITION = '0 <= g_p and g_p < len(g_items) and g_items[g_p][0] == g_q'
+INH_IS = 'g_q in inherited_quals and inherited_quals[g_q] is g_inh and g_inh._g_side == 1'
+G_TS, G_OV = '(g_inh.tosubclass is True)', '(g_inh.overridable is True)'
+INH_FRAME = ('the-inherited-qualifier-is-not-modified',
+             ' and '.join(f'g_inh.{f} == old(g_inh.{f})' for f in FLAVORS + ('propagated', 'type')) + ' and g_inh.value is old(g_inh.value)')
+KEPT = ('the-declared-qualifier-is-never-replaced', 'g_q in new_quals and new_quals[g_q] is g_nq and g_nq.value is old(g_nq.value)')
+LOOP_TYPES_2 = {'qname': Str, 'qual': Ref('CIMQualifier')}
+LOOP_TYPES_3 = {'inh_qname': Str, 'inh_qual': Ref('CIMQualifier')}
+G_SAME = 'g_nq.value == g_inh.value and g_nq.type == g_inh.type'
+DONE = '(g_p < _i)'
+
+
+FLAVORS_SET = 'g_nq.tosubclass is not None and g_nq.overridable is not None'
+
+
+def declared_rows(done):
+    """After fix b36714f every declared qualifier that is accepted has been through _init_qualifier: its flavors are set."""
+    return [('declared-and-overridable-stays-local', f'implies({done} and {G_TS} and {G_OV}, g_nq.propagated is False and {FLAVORS_SET})'),
+            ('declared-and-not-overridable-has-the-inherited-value-and-type',
+             f'implies({done} and {G_TS} and not {G_OV}, g_nq.propagated is True and {G_SAME} and {FLAVORS_SET})'),
+            ('declared-and-restricted-is-accepted-unless-DisableOverride',
+             f'implies({done} and not {G_TS}, g_nq.propagated is True and g_inh.overridable is not False and {FLAVORS_SET})')]
+
+
+ROW_CALLEES = {'_init_qualifier': init_c, 'items': items_stub, 'copy': copy_stub}
+CONTRACTS.append(Contract(
+    K + '_resolve_qualifiers', label='propagate=True, g_q declared and inherited',
+    params=dict(RQ_PARAMS, new_quals=MapOf('str', QREF), inherited_quals=Ref('NocaseDict'), propagate=Lit(True)),
+    ghosts={'g_items': ITEMS, 'g_q': Str, 'g_p': Int, 'g_nq': Ref('CIMQualifier'), 'g_inh': Ref('CIMQualifier')},
+    requires=ENUM_ROW + [POSITION, INH_IS, NEW_SIDE, 'g_q in new_quals and new_quals[g_q] is g_nq'],
+    callees=ROW_CALLEES,
+    loops={2: LoopSpec(target='(qname, qual)', types=LOOP_TYPES_2, modifies=QUAL_FIELDS, invariant=[INH_FRAME]),
+           3: LoopSpec(target='(inh_qname, inh_qual)', types=LOOP_TYPES_3, modifies=QUAL_FIELDS + ['new_quals'],
+                       invariant=[('new-side', NEW_SIDE), INH_FRAME, KEPT] + declared_rows(DONE))},
+    ensures=[KEPT, INH_FRAME] + declared_rows('True'),
+    raises={'CIMError': Raises(post=[('always-INVALID_PARAMETER', 'exc.status_code == CIM_ERR_INVALID_PARAMETER'), KEPT, INH_FRAME]),
+            'KeyError': Raises()},
+))
+
+ROW_PARAMS = dict(RQ_PARAMS, new_quals=MapOf('str', QREF), inherited_quals=Ref('NocaseDict'), propagate=Lit(True))
+ABSENT = 'g_q not in new_quals'
+COPIED = ('g_q in new_quals and new_quals[g_q].propagated is True and new_quals[g_q]._g_side == 0 and new_quals[g_q] is not g_inh '
+          'and new_quals[g_q].value == g_inh.value and new_quals[g_q].type == g_inh.type')
+INVALID = ('always-INVALID_PARAMETER', 'exc.status_code == CIM_ERR_INVALID_PARAMETER')
+# g_q inherited with ToSubclass and not declared: copied (a new object, not the superclass's), marked propagated
+CONTRACTS.append(Contract(
+    K + '_resolve_qualifiers', label='propagate=True, g_q inherited with ToSubclass, not declared',
+    params=ROW_PARAMS, ghosts={'g_items': ITEMS, 'g_q': Str, 'g_p': Int, 'g_inh': Ref('CIMQualifier')},
+    requires=ENUM_ROW + [POSITION, INH_IS, NEW_SIDE, ABSENT, G_TS],
+    callees=ROW_CALLEES,
+    loops={2: LoopSpec(target='(qname, qual)', types=LOOP_TYPES_2, modifies=QUAL_FIELDS, invariant=[INH_FRAME]),
+           3: LoopSpec(target='(inh_qname, inh_qual)', types=LOOP_TYPES_3, modifies=QUAL_FIELDS + ['new_quals'],
+                       invariant=[('new-side', NEW_SIDE), INH_FRAME,
+                                  ('not-yet-processed-is-absent', f'implies(not {DONE}, {ABSENT})'),
+                                  ('undeclared-ToSubclass-qualifier-is-copied-and-marked-propagated', f'implies({DONE}, {COPIED})')])},
+    ensures=[INH_FRAME, ('undeclared-ToSubclass-qualifier-is-copied-and-marked-propagated', COPIED)],
+    raises={'CIMError': Raises(post=[INVALID, INH_FRAME]), 'KeyError': Raises()},
+))
+# g_q inherited but Restricted (tosubclass False or None) and not declared: never copied
+CONTRACTS.append(Contract(
+    K + '_resolve_qualifiers', label='propagate=True, g_q inherited Restricted, not declared',
+    params=ROW_PARAMS, ghosts={'g_items': ITEMS, 'g_q': Str, 'g_p': Int, 'g_inh': Ref('CIMQualifier')},
+    requires=ENUM_ROW + [POSITION, INH_IS, NEW_SIDE, ABSENT, f'not {G_TS}'],
+    callees=ROW_CALLEES,
+    loops={2: LoopSpec(target='(qname, qual)', types=LOOP_TYPES_2, modifies=QUAL_FIELDS, invariant=[INH_FRAME]),
+           3: LoopSpec(target='(inh_qname, inh_qual)', types=LOOP_TYPES_3, modifies=QUAL_FIELDS + ['new_quals'],
+                       invariant=[('new-side', NEW_SIDE), INH_FRAME, ('a-restricted-qualifier-is-never-copied', ABSENT)])},
+    ensures=[INH_FRAME, ('a-restricted-qualifier-is-never-copied', ABSENT)],
+    raises={'CIMError': Raises(post=[INVALID, INH_FRAME, ('a-restricted-qualifier-is-never-copied', ABSENT)]), 'KeyError': Raises()},
+))
+# g_q not inherited and not declared: nothing appears
+NOT_INHERITED = ['g_q not in inherited_quals', 'g_p == -1']
+CONTRACTS.append(Contract(
+    K + '_resolve_qualifiers', label='propagate=True, g_q neither declared nor inherited', prefer='cvc5',
+    params=ROW_PARAMS, ghosts={'g_items': ITEMS, 'g_q': Str, 'g_p': Int},
+    requires=ENUM_ROW + NOT_INHERITED + [NEW_SIDE, ABSENT],
+    callees=ROW_CALLEES,
+    loops={2: LoopSpec(target='(qname, qual)', types=LOOP_TYPES_2, modifies=QUAL_FIELDS),
+           3: LoopSpec(target='(inh_qname, inh_qual)', types=LOOP_TYPES_3, modifies=QUAL_FIELDS + ['new_quals'],
+                       invariant=[('nothing-appears-that-is-neither-declared-nor-inherited', ABSENT)])},
+    ensures=[('nothing-appears-that-is-neither-declared-nor-inherited', ABSENT)],
+    raises={'CIMError': Raises(post=[INVALID, ('nothing-appears-that-is-neither-declared-nor-inherited', ABSENT)]), 'KeyError': Raises()},
+))
+# g_q declared and NOT inherited: initialised by _init_qualifier in loop 2 (g_k = its position in the key sequence of
+# new_quals, which the loop iterates: list(new_quals)), kept and left alone by loop 3
+INITIALISED = 'g_nq.propagated is False and g_nq.tosubclass is not None and g_nq.overridable is not None'
+CONTRACTS.append(Contract(
+    K + '_resolve_qualifiers', label='propagate=True, g_q declared, not inherited',
+    params=ROW_PARAMS, ghosts={'g_items': ITEMS, 'g_q': Str, 'g_p': Int, 'g_k': Int, 'g_nq': Ref('CIMQualifier')},
+    requires=ENUM_ROW + NOT_INHERITED + [NEW_SIDE, 'g_q in new_quals and new_quals[g_q] is g_nq',
+                                         '0 <= g_k and g_k < len(list(new_quals)) and list(new_quals)[g_k] == g_q'],
+    callees=ROW_CALLEES,
+    loops={2: LoopSpec(target='(qname, qual)', types=LOOP_TYPES_2, modifies=QUAL_FIELDS,
+                       invariant=[('declared-and-not-inherited-is-initialised', f'implies(g_k < _i, {INITIALISED})')]),
+           3: LoopSpec(target='(inh_qname, inh_qual)', types=LOOP_TYPES_3, modifies=QUAL_FIELDS + ['new_quals'],
+                       invariant=[('new-side', NEW_SIDE), KEPT, ('declared-and-not-inherited-is-initialised', INITIALISED)])},
+    ensures=[KEPT, ('declared-and-not-inherited-is-initialised', INITIALISED)],
+    raises={'CIMError': Raises(post=[INVALID, KEPT]), 'KeyError': Raises()},
+))
+
+# ---- run-time budget: the two largest contracts above discharge completely (23 obligations in 125 s, 15 in 169 s of one
+# worker process each) but exceed the wall-time budget of this property; they are replaced by per-row / per-aspect splits
+# with the same clauses (same names) and kept, not loaded, in DISCHARGED_BUT_TOO_SLOW.
+DISCHARGED_BUT_TOO_SLOW = [c for c in CONTRACTS if c.label in ('propagate=True, g_q declared and inherited',
+                                                               'propagate=True, g_q inherited with ToSubclass, not declared')]
+CONTRACTS = [c for c in CONTRACTS if c not in DISCHARGED_BUT_TOO_SLOW]
+for _row, _fix, _cl in (('ToSubclass and overridable', f'{G_TS} and {G_OV}', 0), ('ToSubclass, not overridable', f'{G_TS} and not {G_OV}', 1),
+                        ('Restricted', f'not {G_TS}', 2)):
+    CONTRACTS.append(Contract(
+        K + '_resolve_qualifiers', label=f'propagate=True, g_q declared and inherited {_row}',
+        params=ROW_PARAMS, ghosts=DISCHARGED_BUT_TOO_SLOW[0].ghosts,
+        requires=DISCHARGED_BUT_TOO_SLOW[0].requires + [_fix], callees=ROW_CALLEES,
+        loops={2: LoopSpec(target='(qname, qual)', types=LOOP_TYPES_2, modifies=QUAL_FIELDS, invariant=[INH_FRAME]),
+               3: LoopSpec(target='(inh_qname, inh_qual)', types=LOOP_TYPES_3, modifies=QUAL_FIELDS + ['new_quals'],
+                           invariant=[('new-side', NEW_SIDE), INH_FRAME, KEPT, declared_rows(DONE)[_cl]])},
+        ensures=[KEPT, declared_rows('True')[_cl]],
+        raises={'CIMError': Raises(post=[INVALID, KEPT]), 'KeyError': Raises()},
+    ))
+COPIED_PARTS = (('marked propagated', 'g_q in new_quals and new_quals[g_q].propagated is True and new_quals[g_q]._g_side == 0 '
+                                      'and new_quals[g_q] is not g_inh'),
+                ('same value and type', 'g_q in new_quals and new_quals[g_q].value == g_inh.value and new_quals[g_q].type == g_inh.type'))
+for _part, _cl in COPIED_PARTS:
+    _nm = 'undeclared-ToSubclass-qualifier-is-copied-' + _part.replace(' ', '-')
+    CONTRACTS.append(Contract(
+        K + '_resolve_qualifiers', label=f'propagate=True, g_q inherited with ToSubclass, not declared: {_part}',
+        params=ROW_PARAMS, ghosts=DISCHARGED_BUT_TOO_SLOW[1].ghosts, requires=DISCHARGED_BUT_TOO_SLOW[1].requires, callees=ROW_CALLEES,
+        loops={2: LoopSpec(target='(qname, qual)', types=LOOP_TYPES_2, modifies=QUAL_FIELDS, invariant=[INH_FRAME]),
+               3: LoopSpec(target='(inh_qname, inh_qual)', types=LOOP_TYPES_3, modifies=QUAL_FIELDS + ['new_quals'],
+                           invariant=[('new-side', NEW_SIDE), INH_FRAME,
+                                      ('not-yet-processed-is-absent', f'implies(not {DONE}, {ABSENT})'),
+                                      (_nm, f'implies({DONE}, {_cl})')])},
+        ensures=[INH_FRAME, (_nm, _cl)],
+        raises={'CIMError': Raises(post=[INVALID]), 'KeyError': Raises()},
+    ))
